@@ -495,3 +495,47 @@ Proof.
     rewrite Hfn in E2 by (intros ->; contradiction).
     apply (Hdisj p q b1 b2 (or_introl Hpi) (or_introl Hqi) Hne E1 E2).
 Qed.
+
+(* ---------- the head's table has distinct keys ---------- *)
+Lemma dset_keys_nodup {A} (l : list (Z * A)) k v : NoDup (map fst l) -> NoDup (map fst (dset l k v)).
+Proof.
+  induction l as [|[k' v'] r IH]; intros H; cbn; [constructor; [intros []|constructor]|].
+  cbn in H. inversion H as [|? ? Hk Hr]; subst.
+  destruct (Z.eqb k k') eqn:E; cbn; [constructor; assumption|].
+  constructor; [|apply IH; exact Hr].
+  intros Hi. apply Hk. clear -Hi E. induction r as [|[k2 v2] r IH]; cbn in *.
+  - destruct Hi as [Hi|[]]. apply Z.eqb_neq in E. congruence.
+  - destruct (Z.eqb k k2) eqn:E2; cbn in Hi; [exact Hi|]. destruct Hi as [Hi|Hi]; [left; exact Hi|right; apply IH; exact Hi].
+Qed.
+
+Lemma cb_arcs_tbl_nodup new var : forall ss g jt value tbl names g1 jt1 value1 tbl1 names1,
+  NoDup (map fst tbl) ->
+  cb_arcs g new var ss jt value tbl names = Some (g1, jt1, value1, tbl1, names1) -> NoDup (map fst tbl1).
+Proof.
+  induction ss as [|s rest IH]; intros g jt value tbl names g1 jt1 value1 tbl1 names1 Hnd H.
+  - cbn in H. injection H as <- <- <- <- <-. exact Hnd.
+  - cbn [cb_arcs] in H. destruct names as [|a names']; [discriminate|].
+    eapply IH; [|exact H]. unfold tset. apply dset_keys_nodup. exact Hnd.
+Qed.
+
+Lemma cb_preds_tbl_nodup new var Ss : forall preds g value tbl names g' tbl',
+  NoDup (map fst tbl) ->
+  cb_preds g new var Ss preds value tbl names = Ok (g', tbl') -> NoDup (map fst tbl').
+Proof.
+  induction preds as [|p rest IH]; intros g value tbl names g' tbl' Hnd H.
+  - cbn in H. injection H as <- <-. exact Hnd.
+  - cbn [cb_preds] in H. destruct (efind g p) as [b|]; [|discriminate].
+    destruct (cb_arcs g new var _ (e_jt b) value tbl names) as [[[[[g1 jt] value1] tbl1] names1]|] eqn:Ha; [|discriminate].
+    destruct (dpop g1 p) as [[b0 g2]|]; [|discriminate].
+    destruct (replace_jt b0 jt) as [b'|]; [|discriminate].
+    eapply IH; [|exact H]. eapply cb_arcs_tbl_nodup; [exact Hnd|exact Ha].
+Qed.
+
+Theorem insert_cb_tbl_nodup g new var preds Ss names cls g' c v tbl :
+  insert_cb g new var preds Ss names cls = Ok g' ->
+  efind g' new = Some (mkE Ss [] (EBranch c v tbl)) -> NoDup (map fst tbl).
+Proof.
+  unfold insert_cb. destruct (cb_preds g new var Ss preds 0 [] names) as [[g1 tbl0]| |] eqn:Hp; try discriminate.
+  intros [= <-] Hf. unfold efind in Hf. rewrite zassoc_dset, Z.eqb_refl in Hf. injection Hf as _ _ <-.
+  eapply cb_preds_tbl_nodup; [|exact Hp]. constructor.
+Qed.
